@@ -14,7 +14,9 @@ RULE = ("An invertible zoo transform (leaf or composite, Inverse wrappers, flat/
         "Jacobian at x; forward(inverse(y)) == y for y drawn directly in the range (kappa = ||J||_inf); "
         "inverse(y).logabsdet + forward(inverse(y)).logabsdet == 0; every number finite. A = declared approximation "
         "constants (Sigmoid eps clamp, cubic quadratic_threshold, UMNN bisection). Non-trivial: forward is not the identity "
-        "on the batch. Distinct = distinct case JSON.")
+        "on the batch. Maps made of additions and multiplications only (affine, permutations, affine couplings / autoregressive layers) "
+        "get 1e-11 instead of 1e-8; autoregressive layers also with 7-14 features; conditioners also with dropout (evaluation mode); the "
+        "second order starts with inverse() on a never-called copy. Distinct = distinct case JSON.")
 ASSUMPTIONS = ["conditioning measured from the float64 autograd Jacobian", "UMNN inverse inputs are produced by forward (its "
                "bisection only searches x in [-20, 20])", "chains driving exp/tanh/sigmoid into saturation are inconclusive"]
 EXPLANATION = "generated search only"
